@@ -1,7 +1,7 @@
 """C10 — draw rules in search: threefold repetition and the fifty-move rule."""
 from .common import SEARCH, BB
 from ..cfg import Cfg
-from ..expr import Exprs, fold, Unfoldable, show, leaves
+from ..expr import Exprs, fold, Unfoldable, show, leaves, Inliner, subst
 from .. import balance as B
 
 SCOPE = "engine"
@@ -31,6 +31,69 @@ def is_clock_read(t):
     return t[0] == "f" and t[2] == "halfmove_clock"
 
 
+_INL = {}
+
+
+def general_comparison(prog, bop, a0, a1):
+    """[(label, least clock value at which the comparison holds for some side to move)] per binding of the trait
+    constants, or None when the comparison does not involve the half-move clock / cannot be evaluated"""
+    inl = _INL.get(id(prog))
+    if inl is None:
+        inl = _INL[id(prog)] = Inliner(prog, only=lambda k: k.startswith("inkayaku_"))
+    t0, t1 = inl.expand(a0), inl.expand(a1)
+    def clock_leaves(t):
+        return [x for x in leaves(t) if x[0] == "f" and x[2] == "halfmove_clock"]
+    if not clock_leaves(t0) and not clock_leaves(t1):
+        return None
+    tree = ("bin", bop, t0, t1, "bool")
+    turn_leaves = [x for x in leaves(tree) if x[0] == "f" and x[2] == "turn"]
+    generic = [x for x in leaves(tree) if x[0] == "c" and not isinstance(x[1], (int, bool)) and x[3]]
+    strange = [x for x in leaves(tree) if x[0] in ("param", "local", "call", "*") or (x[0] == "f" and x[2] not in ("halfmove_clock", "turn"))]
+    strange = [x for x in strange if not any(x is y or x == y[1] for y in clock_leaves(tree) + turn_leaves)]
+    strange = [x for x in strange if x[0] in ("call",)]
+    if strange:
+        return None
+    bindings = [("", {})]
+    if generic:
+        bindings = []
+        gpaths = sorted({x[3] for x in generic})
+        trait = gpaths[0].rsplit("::", 1)[0]
+        impl_types = sorted({i["self_ty"] for i in prog.impls if i.get("trait") == trait}) or [None]
+        for it in impl_types:
+            m = {}
+            for x in generic:
+                name = x[3].rsplit("::", 1)[-1]
+                ov = [c for ck, c in prog.consts.items() if it and ck.endswith("::" + name) and ("<%s as " % it.rsplit("::", 1)[-1]) in ck]
+                v = ov[0]["value"] if ov else prog.const_value(x[3])
+                if not isinstance(v, int):
+                    return None
+                m[x] = ("c", v, x[2], None)
+            bindings.append((" for %s" % (it or "").rsplit("::", 1)[-1], m))
+    out = []
+    for label, m in bindings:
+        least = None
+        for clock in range(0, 4201):
+            hit = False
+            for turn in (0, 1):
+                env = dict(m)
+                for x in clock_leaves(tree):
+                    env[x] = ("c", clock, "u32", None)
+                for x in turn_leaves:
+                    env[x] = ("c", turn, "u8", None)
+                try:
+                    if fold(subst(tree, env)):
+                        hit = True
+                except Unfoldable:
+                    return None
+            if hit:
+                least = clock
+                break
+        if least is None:
+            least = 10 ** 9   # never true
+        out.append(("%s%s" % (show(tree)[:120], label), least))
+    return out
+
+
 def clock_comparisons(ctx):
     """every comparison between a read of Bitboard.halfmove_clock and a constant in the engine crates:
     yields (function, block, statement, op as seen from the clock, [(label, value)], cfg, exprs)"""
@@ -48,6 +111,14 @@ def clock_comparisons(ctx):
                     continue
                 ex = ex or Exprs(f)
                 a0, a1 = ex.operand(rv["a"][0]), ex.operand(rv["a"][1])
+                if not is_clock_read(a0) and not is_clock_read(a1):
+                    # the clock inside an arithmetic expression or behind a helper (`(clock + turn) / 2 >= MAX / 2`):
+                    # the comparison is evaluated for every clock value 0..4200 and both sides to move
+                    g = general_comparison(prog, rv["bop"], a0, a1)
+                    if g is not None:
+                        cfg = cfg or Cfg(f)
+                        yield f, bi, s, "Ge", g, cfg, ex
+                    continue
                 if is_clock_read(a0) == is_clock_read(a1):
                     continue
                 clock_first = is_clock_read(a0)
@@ -160,6 +231,11 @@ def r1_threshold(ctx):
             if least is None:
                 least = 0
             ok = least >= 100
+            if "halfmove_clock" in label:
+                ctx.ob(rid, "%s|%s|%s" % (f["key"], op, label.split(" for ")[-1]), ok,
+                       "" if ok else "%s: the comparison `%s`, evaluated for every clock value and both sides to move, first holds at a half-move clock of %d and selects the draw score there; the fifty-move rule needs 100 plies" % (f["display"], label, least),
+                       ctx.where(f, s["line"]), sample={"function": f["key"], "comparison": label, "true_from_clock": least})
+                continue
             ctx.ob(rid, "%s|%s|%s" % (f["key"], op, label.split(" for ")[-1]), ok,
                    "" if ok else "%s: `halfmove_clock %s %s` with %s = %d selects the draw score already at %d plies (%d moves by each side); the fifty-move rule needs 100 plies"
                    % (f["display"], {"Ge": ">=", "Gt": ">", "Eq": "==", "Le": "<=", "Lt": "<", "Ne": "!="}[op], label, label, v, least, least // 2),
@@ -184,6 +260,12 @@ def r2_history(ctx):
     ts, tc = f["blocks"][sets[0]]["term"], f["blocks"][counts[0]]["term"]
     ok = cfg.dominates(sets[0], counts[0])
     ctx.ob(rid, "negamax|set-dominates-count", ok, "" if ok else "count_repetitions can be reached without recording the current position first", ctx.where(f, tc["line"]))
+    makes = call_blocks(f, cfg, B.MAKE)
+    undominated = [m for m in makes if not cfg.dominates(sets[0], m)]
+    ok = bool(makes) and not undominated
+    ctx.ob(rid, "negamax|every-expanded-node-recorded", ok,
+           "" if ok else "search_negamax can make a child move without having recorded the current position in the history (the recording is conditional): a node that is the first or second occurrence of a position is then invisible to the repetition count deeper in the line",
+           ctx.where(f, ts["line"]), sample={"make_sites": len(makes)})
     ply_s, ply_c = ex.operand(ts["args"][1]), ex.operand(tc["args"][1])
     ok = ply_s == ply_c and any(x[0] == "call" and x[1] == BB + "ply_clock" for x in leaves(ply_s))
     ctx.ob(rid, "negamax|same-ply-index", ok, "" if ok else "set uses index %s but count_repetitions starts at %s" % (show(ply_s), show(ply_c)),
